@@ -283,6 +283,56 @@ def to_xml(composites, layer_kind="BASE-VARIANT") -> str:
             f'<SHORT-NAME>DLC</SHORT-NAME><{layer_kind}S>{body}</{layer_kind}S></DIAG-LAYER-CONTAINER></ODX>')
 
 
+def layer_xml(layer, layer_kind="BASE-VARIANT") -> str:
+    """a complete ODX document for a desc.Layer: services referencing (possibly shared) requests / responses"""
+    em = Emitter()
+    sec = {"request": [], "pos-response": [], "neg-response": [], "global-neg-response": []}
+    for c in layer.composites:
+        tag = KIND_TAG[c.kind]
+        sec[c.kind].append(f'<{tag} ID="{c.name}"><SHORT-NAME>{c.name}</SHORT-NAME>{em.params_xml(c.params, c.name)}</{tag}>')
+    svcs = ""
+    for s in layer.services:
+        refs = f'<REQUEST-REF ID-REF="{s.request}"/>'
+        if s.pos:
+            refs += "<POS-RESPONSE-REFS>" + "".join(f'<POS-RESPONSE-REF ID-REF="{n}"/>' for n in s.pos) + "</POS-RESPONSE-REFS>"
+        if s.neg:
+            refs += "<NEG-RESPONSE-REFS>" + "".join(f'<NEG-RESPONSE-REF ID-REF="{n}"/>' for n in s.neg) + "</NEG-RESPONSE-REFS>"
+        svcs += f'<DIAG-SERVICE ID="svc_{s.name}"><SHORT-NAME>{s.name}</SHORT-NAME>{refs}</DIAG-SERVICE>'
+    ddds = "".join(f"<{tag}>{''.join(em.sec[k])}</{tag}>" for tag, k in Emitter.SECTIONS if em.sec[k])
+    body = (f'<{layer_kind} ID="L"><SHORT-NAME>L</SHORT-NAME><DIAG-DATA-DICTIONARY-SPEC>{ddds}</DIAG-DATA-DICTIONARY-SPEC>'
+            f'<DIAG-COMMS>{svcs}</DIAG-COMMS><REQUESTS>{"".join(sec["request"])}</REQUESTS>'
+            + (f'<POS-RESPONSES>{"".join(sec["pos-response"])}</POS-RESPONSES>' if sec["pos-response"] else "")
+            + (f'<NEG-RESPONSES>{"".join(sec["neg-response"])}</NEG-RESPONSES>' if sec["neg-response"] else "")
+            + (f'<GLOBAL-NEG-RESPONSES>{"".join(sec["global-neg-response"])}</GLOBAL-NEG-RESPONSES>' if sec["global-neg-response"] else "")
+            + f'</{layer_kind}>')
+    return (f'<?xml version="1.0" encoding="UTF-8"?><ODX MODEL-VERSION="2.2.0" {XSI}><DIAG-LAYER-CONTAINER ID="DLC">'
+            f'<SHORT-NAME>DLC</SHORT-NAME><{layer_kind}S>{body}</{layer_kind}S></DIAG-LAYER-CONTAINER></ODX>')
+
+
+class LoadedLayer:
+    """result of load_layer(): database, the diagnostic layer, coding objects by composite name, services by name"""
+
+    def __init__(self, db, dl, objs, services):
+        self.db, self.dl, self.objs, self.services = db, dl, objs, services
+
+    def __getitem__(self, name):
+        return self.objs[name]
+
+
+def load_layer(layer, layer_kind="BASE-VARIANT") -> LoadedLayer:
+    from odxtools.database import Database
+    db = Database()
+    db._process_xml_tree(ET.fromstring(layer_xml(layer, layer_kind)))
+    db.refresh()
+    dl = db.diag_layers[0]
+    raw = dl.diag_layer_raw
+    pools = {"request": raw.requests, "pos-response": raw.positive_responses, "neg-response": raw.negative_responses,
+             "global-neg-response": raw.global_negative_responses}
+    objs = {c.name: pools[c.kind][c.name] for c in layer.composites}
+    services = {s.name: dl.services[s.name] for s in layer.services}
+    return LoadedLayer(db, dl, objs, services)
+
+
 class Loaded:
     """result of load(): the odxtools objects for each composite (by name) and the database"""
 
